@@ -545,8 +545,6 @@ Proof. unfold live. intros H E. rewrite E in H. discriminate. Qed.
 
 Ltac state_eq := repeat match goal with H : (_ =? _) = true |- _ => apply Z.eqb_eq in H end.
 
-Definition with_sk (w : world) (s : sock) : world := mkW s (pfx w) (keys w) (evs w) (opens w) (sends w) (now w) (out w).
-Definition with_out (w : world) (o : list titem) : world := mkW (sk w) (pfx w) (keys w) (evs w) (opens w) (sends w) (now w) o.
 Lemma hoare_set_sk {B} w s (f : unit -> world -> res B) (Q : B -> world -> Prop) (QX : world -> Prop) :
   hoare (f tt) (with_sk w s) Q QX -> hoare (bind (set_sk s) f) w Q QX.
 Proof. intros H. exact H. Qed.
@@ -686,12 +684,32 @@ Proof.
   destruct ((mdo _ <- rtr_stop; mdo _ <- dump 1; modify_sk (fun s => upd_st s c_RTR_CONNECTING)) w'); reflexivity.
 Qed.
 
+Lemma change_state_ok ns w : exists w', change_state ns w = Ok tt w' /\ N w w' /\ (st (sk w') = st (sk w) \/ st (sk w') = ns).
+Proof.
+  unfold change_state. unfold_prims.
+  destruct (st (sk w) =? ns); [eexists; split; [reflexivity|split; [apply N_refl|auto]]|].
+  destruct (st (sk w) =? c_RTR_SHUTDOWN); eexists; (split; [reflexivity|split; [nfin|sk_simpl; auto]]).
+Qed.
+
+Lemma src_remove_all_eq w : exists w', src_remove_all w = Ok tt w' /\ N w w' /\ sk w' = sk w.
+Proof. unfold src_remove_all. unfold_prims. eexists. split; [reflexivity|]. split; [nfin|reflexivity]. Qed.
+
+Lemma rtr_stop_eq w : exists w', rtr_stop w = Ok tt w' /\ st (sk w') = c_RTR_CLOSED /\ N w w'.
+Proof.
+  unfold rtr_stop. unfold bind at 1, emit.
+  match goal with |- exists _, bind (change_state ?ns) _ ?w0 = _ /\ _ => destruct (change_state_ok ns w0) as (w1 & E1 & N1 & _) end.
+  unfold bind at 1. rewrite E1. unfold bind at 1, tr_close, emit. unfold bind at 1, modify_sk, bind at 1, get_sk, set_sk.
+  match goal with |- exists _, bind src_remove_all _ ?w0 = _ /\ _ => destruct (src_remove_all_eq w0) as (w2 & E2 & N2 & S2) end.
+  unfold bind at 1. rewrite E2. unfold bind, get_sk. eexists. split; [reflexivity|]. sk_simpl. split; [reflexivity|].
+  unfold N in *. sk_simpl_in N1. sk_simpl_in N2. sk_simpl. destruct N1 as (? & ? & ?), N2 as (? & ? & ?). repeat split; congruence.
+Qed.
+
 Lemma stop_restart_eq w :
   exists w', stop_restart w = Ok tt w' /\ st (sk w') = c_RTR_CONNECTING /\ N w w'.
 Proof.
-  unfold stop_restart, rtr_stop, dump, change_state, src_remove_all. unfold_prims.
-  destruct (st (sk w) =? c_RTR_SHUTDOWN); sk_simpl; [|destruct (st (sk w) =? c_RTR_SHUTDOWN)];
-    (eexists; split; [reflexivity|]; sk_simpl; split; [reflexivity|nfin]).
+  unfold stop_restart. destruct (rtr_stop_eq w) as (w1 & E1 & _ & N1).
+  unfold bind at 1. rewrite E1. unfold bind, dump, emit, modify_sk, bind, get_sk, set_sk.
+  eexists. split; [reflexivity|]. sk_simpl. split; [reflexivity|]. unfold N in *. sk_simpl. exact N1.
 Qed.
 
 Theorem no_stutter_iter f w : live w ->
@@ -726,6 +744,3 @@ Proof.
   destruct Hz as [Hn Hz]. destruct H as [Hl' Hm]. specialize (IH f w' Hl' Hz). specialize (Hm Hn). lia.
 Qed.
 
-(* live states are closed under iterations *)
-Theorem live_run n fuel : forall w, live w -> live (run_fsm n fuel w) \/ True.
-Proof. intros; right; exact I. Qed.
